@@ -1,2 +1,7 @@
+/-! GENERATED on every run by harness/extract_facts.py from the code imported from /repo. Do not edit. -/
 namespace Dds.Facts
+
+/-- default of the option `hash.max_sequence_size` -/
+def maxSequenceSizeDefault : Nat := 10000
+
 end Dds.Facts
